@@ -88,6 +88,9 @@ func expect(tier string) []string {
 	for _, n := range []string{"Gauss(3.2,19.2)", "Gauss(1,6)", "TernaryP0.50"} {
 		e = append(e, "Xe="+n, "stat-Xe="+n)
 	}
+	for _, n := range []string{"Gauss(2.15e+09,1.29e+10)", "Gauss(8.59e+09,5.15e+10)", "Gauss(1.1e+12,6.6e+12)"} { // σ = 2^31, 2^33, 2^40
+		e = append(e, "Xe="+n, "stat-Xe="+n)
+	}
 	return e
 }
 
